@@ -163,6 +163,12 @@ namespace GeographicLib {
       if (lon > 90) lon = 180 - lon;
       return slam * lonsign + clam + lon;
     }
+    // D3: the angle is corrected but its sine is not recomputed
+    static double Newton(double sig, double target) {
+      double ssig = std::sin(sig), csig = std::cos(sig);
+      sig = sig - (ssig - target) / csig;
+      return ssig + sig;
+    }
     static bool LengthOk(int width, int height, unsigned long long filelen)
     { return 4u * unsigned(width) * unsigned(height) == filelen; }
   };
